@@ -9,7 +9,7 @@
    ([enc_ok], [lower_ok], [idna_ok], [ipv6_ok], [unquote_ok] - Proofs/UrlEncProofs.v,
    Proofs/UrlC10.v), each of which ./check C10 samples against the real library. *)
 From Coq Require Import List NArith ZArith Bool.
-From Wpull Require Import Model.UrlLib Model.Url Proofs.UrlPeProofs Proofs.UrlEscCaseProofs Proofs.UrlPathProofs Proofs.UrlEncProofs
+From Wpull Require Import Model.UrlLib Model.Url Proofs.UrlPeProofs Proofs.UrlEscCaseProofs Proofs.UrlFragProofs Proofs.UrlPathProofs Proofs.UrlEncProofs
   Proofs.UrlNormProofs Proofs.UrlC10 Proofs.UrlEquivProofs Proofs.UrlEquiv2Proofs.
 Import ListNotations.
 Open Scope N_scope.
@@ -169,6 +169,40 @@ Proof.
   apply hc_pct; try reflexivity. apply hc_chr; [discriminate|]. apply hc_chr; [discriminate|].
   apply hc_pct; try reflexivity. apply hc_chr; [discriminate|]. constructor.
 Qed.
+
+(* a dropped fragment: after a network scheme, the texts "P" and "P#f" (P without '#') are rejected
+   with the same kind or parse to the same normalized URL, scheme, host, port, path and query; the
+   fragment is kept in its own attribute only.  (When the fragment cannot be encoded - a lone
+   surrogate under UTF-8 - "P#f" is rejected and "P" is not: hypothesis normalize_fragment f = Ok nf.) *)
+Theorem C10_equiv_fragment_partial :
+  forall enc idna_o ipv6_o int_o unq_o (url url' scheme : str) (dport : N) (P f nf : str),
+    default_port scheme = Some dport ->
+    memb 35 P = false -> enc [] = Some [] ->
+    normalize_fragment enc f = Ok nf ->
+    match parse_network enc idna_o ipv6_o int_o unq_o url scheme dport (P ++ 35 :: f),
+          parse_network enc idna_o ipv6_o int_o unq_o url' scheme dport P with
+    | Ok i, Ok i' => url_of enc i = url_of enc i' /\ u_scheme i = u_scheme i' /\ u_hostname i = u_hostname i' /\
+                     u_port i = u_port i' /\ u_path i = u_path i' /\ u_query i = u_query i' /\
+                     u_fragment i = nf /\ u_fragment i' = []
+    | Err k, Err k' => k = k'
+    | _, _ => False
+    end.
+Proof. exact parse_network_fragment. Qed.
+Print Assumptions C10_equiv_fragment_partial.
+
+(* non-vacuity: "//Ex.test:80/a/../b?q=1#Frag ment" and "//Ex.test:80/a/../b?q=1" both parse (under the example
+   oracles of C10_hypotheses_satisfiable) to http://ex.test/b?q=1; only the fragment attribute differs *)
+Example C10_fragment_nonvacuous :
+  let P := [47; 47; 69; 120; 46; 116; 101; 115; 116; 58; 56; 48; 47; 97; 47; 46; 46; 47; 98; 63; 113; 61; 49] in
+  let f := [70; 114; 97; 103; 32; 109; 101; 110; 116] in
+  let run x := parse_network ex_enc (fun _ => None) ex_ipv6 (fun _ _ => None) unescape [] [104; 116; 116; 112] 80 x in
+  memb 35 P = false /\ ex_enc [] = Some [] /\ normalize_fragment ex_enc f = Ok [70; 114; 97; 103; 37; 50; 48; 109; 101; 110; 116] /\
+  match run (P ++ 35 :: f), run P with
+  | Ok i, Ok i' => url_of ex_enc i = Ok [104; 116; 116; 112; 58; 47; 47; 101; 120; 46; 116; 101; 115; 116; 47; 98; 63; 113; 61; 49]
+                   /\ url_of ex_enc i' = url_of ex_enc i /\ u_fragment i <> u_fragment i'
+  | _, _ => False
+  end.
+Proof. cbv zeta. vm_compute. repeat split; discriminate. Qed.
 
 (* ---------- component laws ---------- *)
 (* flatten_path (with slash flattening, as normalize_path calls it) is idempotent ... *)
